@@ -157,6 +157,28 @@ def wildcopy_margins(prog, res):
     res.need(R, 5)
 
 
+def split_table_bound(prog, res):
+    """T12: the block splitter records split points in a fixed table (ZSTD_MAX_NB_BLOCK_SPLITS entries, one of them for the
+    end marker).  The recursive helper changes the fill level: every store into the table must see a limit test made AFTER the
+    last recursive call that precedes it (a test on entry says nothing once the left half has been explored)."""
+    R = "T12.split-table-bound"
+    f = prog.fn("ZSTD_deriveBlockSplitsHelper")
+    stores = f.find_roots(lambda x: x.get("k") == "asg" and strip_casts(x["lhs"]).get("k") == "idx" and
+                          any(y.get("f") == "splitLocations" for y in walk(x["lhs"])))
+    rec = f.call_roots("ZSTD_deriveBlockSplitsHelper")
+    room = guards.rel_edges(f, lambda a: any(y.get("f") == "idx" for y in f.walk_resolved(a)), ">=", lambda b_: const_val(strip_casts(b_)) is not None, truth=False) + \
+        guards.rel_edges(f, lambda a: any(y.get("f") == "idx" for y in f.walk_resolved(a)), "<", lambda b_: const_val(strip_casts(b_)) is not None, truth=True)
+    res.check(len(stores) >= 1 and len(rec) >= 2 and bool(room), R, "shape", f.loc, "%d store(s), %d recursive calls, limit test present" % (len(stores), len(rec)),
+              "split-table helper changed shape: stores %d, recursive calls %d, limit tests %d" % (len(stores), len(rec), len(room)))
+    for st in stores:
+        before = [r_ for r_ in rec if st in f.flow([(r_[0], r_[1] + 1)])]
+        ok = bool(room) and f.must_pass(via_edges=room, starts=[(b, i + 1) for b, i in before] or None, targets=[st])
+        res.check(ok, R, "store-after-fresh-limit-test", f.loc, "the store follows a limit test made after the preceding recursive call",
+                  "ZSTD_deriveBlockSplitsHelper stores a split point after a recursive call without re-testing the table limit: with enough splits the store "
+                  "(and the end marker) land past partitions[ZSTD_MAX_NB_BLOCK_SPLITS]")
+    res.need(R, 2)
+
+
 def run(tier):
     res = Result("C06", tier)
     tus, info = extract(["compress", "decompress", "common"])
@@ -169,6 +191,7 @@ def run(tier):
     capacity.dst_capacity_pairs(prog, res, "T8.dst-capacity-pair", ["lib/compress/", "lib/decompress/"], 36)
     checked_bulk_writes(prog, res)
     wildcopy_margins(prog, res)
+    split_table_bound(prog, res)
     t4_common.run(prog, res, "T4.error-discipline", ["lib/compress/"], 220)
 
     # the one deliberate swallow: dstSize_tooSmall -> 0 only when the raw block still fits
